@@ -443,7 +443,20 @@ def r3_single_writer(ctx: Ctx) -> None:
     gp = ctx.repo.func(SCN, "Scanner.get_position")
     ctx.check(any(_canon(gp.node, r.value) == "Position(self.current_line, self.start - self.line_offset, self.file)" for r in walk_no_nested(gp.node) if isinstance(r, ast.Return)),
               "Scanner.get_position", "line = lines closed so far, column = token start relative to the line start")
+    # the line table itself: line k of the file is entry k -- append() adds its argument once, get() / Position.get_line() index it by line
+    from ..match import canonical_statements as _cst
 
+    fa = ctx.repo.func("a816.parse.tokens", "File.append")
+    fg = ctx.repo.func("a816.parse.tokens", "File.get")
+    pa_, pg_ = fa.params()[1], fg.params()[1]
+    body_a, body_g = _cst(fa.node), _cst(fg.node)
+    adds = [b for b in body_a if "self.lines" in b]
+    if not adds or any(b != f"self.lines.append({pa_})" for b in adds):
+        raise AnalysisError(f"{fa.where}: line table written other than by self.lines.append(<line>): {adds}; layout not modelled")
+    ctx.check(len(adds) == 1, "File.append", f"each closed line is stored once, at the end of the table; found {adds}", fact=True)
+    if not (len(body_g) == 1 and body_g[0].startswith("return self.lines[")):
+        raise AnalysisError(f"{fg.where}: not a single `return self.lines[..]`; layout not modelled")
+    ctx.check(body_g == [f"return self.lines[{pg_}]"], "File.get", f"line k is entry k of the table; found {body_g}")
 
 
 def _peek_is_plain_char(text: str) -> bool:
@@ -523,4 +536,42 @@ def r5_skips_stay_on_the_line(ctx: Ctx) -> None:
     r2_skip_sets(ctx)
 
 
-RULES = [r1_errors_carry_location, r2_position_before_newline, r3_single_writer, r4_string_characters_all_tested, r5_skips_stay_on_the_line, rb_binding_agreement, rm_no_process_lifetime_results, ru_names_bound]
+def r6_dispatch_errors_name_the_dispatched_token(ctx: Ctx) -> None:
+    """a parser state that takes a token (`t = p.next()` / `p.current()`), dispatches on its type through an if-chain and raises
+    ParserSyntaxError in the final `else` is complaining about `t`: the error has to carry `t`.  A fresh `p.current()` / `p.peek()` there is the
+    token after it -- another statement's, or, when `t` was the end-of-input token, the position-less placeholder whose trace() is None
+    (which MZParser.parse_as_ast hands on as `no error`: shared with C14)"""
+    from ..match import if_chain, kwarg
+
+    n = 0
+    for fi in ctx.repo.module("a816.parse.parser_states").functions.values():
+        nested = {id(st.orelse[0]) for st in ast.walk(fi.node) if isinstance(st, ast.If) and len(st.orelse) == 1 and isinstance(st.orelse[0], ast.If)}
+        for st in walk_no_nested(fi.node):
+            if not isinstance(st, ast.If) or id(st) in nested:
+                continue
+            arms, els = if_chain(st)
+            raises = [r for r in els if isinstance(r, ast.Raise) and isinstance(r.exc, ast.Call) and call_name(r.exc) == "ParserSyntaxError"]
+            if not raises:
+                continue
+            subjects = set()
+            for test, _b in arms:
+                t = test.values[0] if isinstance(test, ast.BoolOp) and isinstance(test.op, ast.And) else test
+                if isinstance(t, ast.Call) and call_name(t) in ("accept_token", "accept_tokens") and t.args and isinstance(t.args[0], ast.Name):
+                    subjects.add(t.args[0].id)
+                else:
+                    subjects.add(None)
+            if len(subjects) != 1 or None in subjects:
+                continue  # not a dispatch on one local token: no claim
+            subj = subjects.pop()
+            call = raises[0].exc
+            tok = call.args[1] if len(call.args) > 1 else kwarg(call, "token")
+            n += 1
+            ctx.count("dispatch_errors")
+            if tok is None:
+                raise AnalysisError(f"{fi.where}: ParserSyntaxError without a token argument")
+            ctx.check(isinstance(tok, ast.Name) and tok.id == subj, f"{fi.name}:else-raise:token",
+                      f"the if-chain dispatches on `{subj}`; the error raised when no arm matches carries `{unparse(tok)}`", fact=True)
+    ctx.floor("dispatch_errors", 2)
+
+
+RULES = [r1_errors_carry_location, r2_position_before_newline, r3_single_writer, r4_string_characters_all_tested, r5_skips_stay_on_the_line, r6_dispatch_errors_name_the_dispatched_token, rb_binding_agreement, rm_no_process_lifetime_results, ru_names_bound]
